@@ -67,6 +67,26 @@ px_dns_hdr_inc(void *hdr, int section, uint16_t val) {
 	}
 }
 
+void
+px_dns_hdr_dec(void *hdr, int section, uint16_t val) {
+	switch (section) {
+	case 0: dns_hdr_qd_dec((dns_hdr_p)hdr, val); break;
+	case 1: dns_hdr_an_dec((dns_hdr_p)hdr, val); break;
+	case 2: dns_hdr_ns_dec((dns_hdr_p)hdr, val); break;
+	case 3: dns_hdr_ar_dec((dns_hdr_p)hdr, val); break;
+	}
+}
+
+void
+px_dns_hdr_set(void *hdr, int section, uint16_t val) {
+	switch (section) {
+	case 0: dns_hdr_qd_set((dns_hdr_p)hdr, val); break;
+	case 1: dns_hdr_an_set((dns_hdr_p)hdr, val); break;
+	case 2: dns_hdr_ns_set((dns_hdr_p)hdr, val); break;
+	case 3: dns_hdr_ar_set((dns_hdr_p)hdr, val); break;
+	}
+}
+
 uint16_t
 px_dns_hdr_cnt(void *hdr, int section) {
 	switch (section) {
